@@ -637,7 +637,7 @@ inline void genAll(Rng& r, int hq) {
 // segment: generic, crossing, near-miss, touching, short-far, coincident-{equator,meridian,oblique}, nearpar, polar;
 // ellipsoids (ix:ell-*): WGS84, International, f = 1/150, 0 (two radii), +-0.015 (series), WGS84 / +-1/50 / +-1/10 exact.
 inline void generate(Rng& r, bool thorough) {
-  long n = thorough ? 40000 : 16000;
+  long n = thorough ? 30000 : 16000;
   int hgrid = thorough ? 250000 : 500000;
   for (long i = 0; i < n; ++i) {
     // the brute-force scan on every case of the thorough tier and on a fraction of the quick tier
